@@ -24,6 +24,7 @@ from typing import Any
 
 from happysimulator.core.entity import Entity
 from happysimulator.core.event import Event
+from happysimulator.core.sim_future import SimFuture
 
 logger = logging.getLogger(__name__)
 
@@ -120,7 +121,7 @@ class Mutex(Entity):
         self._acquisitions += 1
         return True
 
-    def acquire(self, owner: str | None = None) -> Generator[float]:
+    def acquire(self, owner: str | None = None) -> Generator[float | SimFuture]:
         """Acquire the lock, blocking if necessary.
 
         This is a generator that yields control while waiting for the lock.
@@ -130,7 +131,8 @@ class Mutex(Entity):
             owner: Optional owner identifier for debugging.
 
         Yields:
-            0.0 when lock is acquired (no additional delay).
+            0.0 when lock is acquired immediately; otherwise a SimFuture that
+            release() resolves when the lock is handed over.
 
         Example:
             def handle_event(self, event):
@@ -147,18 +149,15 @@ class Mutex(Entity):
         self._contentions += 1
         enqueue_time = self._clock.now.nanoseconds if self._clock else 0
 
-        # Create a flag that will be set when we get the lock
-        acquired = [False]
+        # Future that release() resolves when the lock is handed to us
+        acquired = SimFuture()
 
-        def on_wake():
-            acquired[0] = True
-
-        waiter = _Waiter(callback=on_wake, enqueue_time_ns=enqueue_time)
+        waiter = _Waiter(callback=acquired.resolve, enqueue_time_ns=enqueue_time)
         self._waiters.append(waiter)
 
-        # Yield control until woken
-        while not acquired[0]:
-            yield 0.0
+        # Park until woken (waiting consumes no simulated activity)
+        while not acquired.is_resolved:
+            yield acquired
 
         # Now we have the lock
         self._owner = owner
